@@ -424,6 +424,7 @@ fn config(max_tasks: usize) -> impl Strategy<Value = Config> {
 }
 
 pub fn run(ctx: &mut Ctx) {
+    let fs = ctx.first_shard();
     ctx.rule = "2-3 authenticators share one Arc<Mutex<store>> / Arc<RwLock<store>> (inner store = MemoryStore behind a wrapper that suspends 0-2 times inside every call, so guards are held across suspensions); user validation suspends 0-3 times; ceremony sets {assert/assert same credential, assert/assert different credentials, assert/register, register/register same and different user, three-way mixes}. A schedule is the sequence of 'poll the k-th runnable ceremony' decisions; ALL schedules are enumerated for the fixed small configurations (DFS with prefix replay), larger ones get proptest-generated schedules. Non-trivial = schedule with at least one context switch between two unfinished ceremonies; distinct by (configuration, schedule).".into();
     ctx.assumptions = vec![
         "the harness owns every suspension point (user validation and store calls suspend only through harness doubles), so a ceremony is deterministic given the poll order".into(),
@@ -472,7 +473,7 @@ pub fn run(ctx: &mut Ctx) {
     let cap = ctx.tier.pick(30_000u64, 2_000_000u64);
     let mut all_complete = true;
     let mut per_cfg = vec![];
-    for cfg in &exhaustive_cfgs {
+    for cfg in exhaustive_cfgs.iter().filter(|_| fs) {
         match explore(ctx, cfg, cap) {
             Ok((n, complete)) => {
                 all_complete &= complete;
@@ -492,7 +493,7 @@ pub fn run(ctx: &mut Ctx) {
     ctx.exhaustive = Some(false);
     ctx.note("all_fixed_configurations_enumerated_completely", json!(all_complete));
     // ---- generated part
-    let n = ctx.tier.pick(2_500u32, 200_000u32);
+    let n = ctx.tier.pick(2_500u32, 2_000_000u32);
     let strat = (config(3), proptest::collection::vec(0u8..3, 0..60));
     match search(ctx, 19, n, strat, check_generated) {
         Search::Pass => {}
